@@ -316,6 +316,26 @@ var nilEntries = []nilEntry{
 		}
 		return nil
 	}},
+	{"Header.Links=[nil]; AddLink", false, func(e *gobl.Envelope, _ *dsig.Signature) error {
+		if e.Head == nil {
+			return nil
+		}
+		e.Head.Links = append([]*head.Link{nil}, e.Head.Links...)
+		e.Head.AddLink(&head.Link{Key: "k", URL: "https://example.com"})
+		_ = head.AppendLink(e.Head.Links, &head.Link{Key: "k2", URL: "https://example.com/2"})
+		return e.Validate()
+	}},
+	{"Header.Stamps=[nil]; AddStamp", false, func(e *gobl.Envelope, _ *dsig.Signature) error {
+		if e.Head == nil {
+			return nil
+		}
+		e.Head.Stamps = append([]*head.Stamp{nil}, e.Head.Stamps...)
+		e.Head.AddStamp(&head.Stamp{Provider: "p", Value: "v"})
+		_ = head.AddStamp(e.Head.Stamps, &head.Stamp{Provider: "p2", Value: "v"})
+		_ = head.GetStamp(e.Head.Stamps, "p3")
+		_ = head.NormalizeStamps(e.Head.Stamps)
+		return e.Validate()
+	}},
 	{"Header.Stamps=[nil]; Validate/Verify/Marshal", false, func(e *gobl.Envelope, _ *dsig.Signature) error {
 		if e.Head == nil {
 			return nil
